@@ -51,6 +51,16 @@ func toString(val fhir.Element) string {
 	return ""
 }
 
+// zoneLayout returns the time layout of the zone designator: an element whose
+// timezone is spelled "Z" is rendered with "Z" (as the JSON format does), any
+// other one with its numeric offset.
+func zoneLayout(timezone string) string {
+	if timezone == "Z" {
+		return "Z07:00"
+	}
+	return "-07:00"
+}
+
 // InstantToString converts the FHIR Instant element into its string reprsentation
 // as defined in http://hl7.org/fhir/R4/datatypes.html#instant.
 //
@@ -58,15 +68,16 @@ func toString(val fhir.Element) string {
 // in the input Instant proto.
 func InstantToString(val *dtpb.Instant) string {
 	if tm, err := InstantToTime(val); err == nil {
+		zone := zoneLayout(val.GetTimezone())
 		switch val.GetPrecision() {
 		case dtpb.Instant_SECOND:
-			return tm.Format("2006-01-02T15:04:05-07:00")
+			return tm.Format("2006-01-02T15:04:05" + zone)
 		case dtpb.Instant_MILLISECOND:
-			return tm.Format("2006-01-02T15:04:05.000-07:00")
+			return tm.Format("2006-01-02T15:04:05.000" + zone)
 		case dtpb.Instant_MICROSECOND:
 			fallthrough
 		default:
-			return tm.Format("2006-01-02T15:04:05.000000-07:00")
+			return tm.Format("2006-01-02T15:04:05.000000" + zone)
 		}
 	}
 	// Fall-back to a basic representation (this shouldn't happen unless timezone
@@ -89,13 +100,13 @@ func DateTimeToString(val *dtpb.DateTime) string {
 		case dtpb.DateTime_DAY:
 			return tm.Format("2006-01-02")
 		case dtpb.DateTime_SECOND:
-			return tm.Format("2006-01-02T15:04:05-07:00")
+			return tm.Format("2006-01-02T15:04:05" + zoneLayout(val.GetTimezone()))
 		case dtpb.DateTime_MILLISECOND:
-			return tm.Format("2006-01-02T15:04:05.000-07:00")
+			return tm.Format("2006-01-02T15:04:05.000" + zoneLayout(val.GetTimezone()))
 		case dtpb.DateTime_MICROSECOND:
 			fallthrough
 		default:
-			return tm.Format("2006-01-02T15:04:05.000000-07:00")
+			return tm.Format("2006-01-02T15:04:05.000000" + zoneLayout(val.GetTimezone()))
 		}
 	}
 
